@@ -147,3 +147,9 @@ theorem runsFrom_modify (t : Table ε) (ph pa ph' pa' : String) (create : Bool)
         · simp [e2, lookup]
   · simp [e1]
 end Bobo.Decider
+
+namespace Bobo.Decider
+variable {ε : Type}
+theorem runAt_def (t : Table ε) (ph pa id : String) :
+    t.runAt ph pa id = (t.runsFrom ph pa).find? (fun r => r.run.id == id) := rfl
+end Bobo.Decider
